@@ -598,8 +598,9 @@ Proof.
           (eexists; split; [reflexivity|]; unfold R, with_cache; simpl; rewrite <- ?Rc; auto).
     + destruct (_ && _) in H; discriminate.
     + discriminate.
-  - destruct ((fi =? last_rd_file (c_ sf)) && cl); inv H;
-      (eexists; split; [reflexivity|]; unfold R, with_cache; simpl; auto).
+  - cbn [with_cache c_ o_ in_use] in *. rewrite <- ?Hc.
+    destruct ((fi =? last_rd_file (c_ sf)) && cl); inv H;
+      (eexists; split; [reflexivity|]; unfold R, with_cache; simpl; rewrite <- ?Hc; auto).
 Qed.
 
 (* ADFI_close_file *)
@@ -611,7 +612,7 @@ Proof.
   unfold close_file in *. rewrite <- Hu.
   destruct (negb (in_use sf)); [discriminate|].
   assert (HR0 : R (with_os sf (set_sys_err (o_ sf) 0)) (with_os si (set_sys_err (o_ si) 0))).
-  { unfold R, with_os; simpl. repeat split; auto. apply Ro_sys_err; exact Ho. }
+  { unfold R, with_os; simpl. split; [exact Hc|]. split; [exact Hu|]. apply Ro_sys_err; exact Ho. }
   destruct (flush_buffers (with_os sf (set_sys_err (o_ sf) 0)) fi true) as [[] s1| |] eqn:Hf.
   - destruct (sys_close (o_ s1)) as [[cr e] o2] eqn:Hcl.
     destruct (cr <? 0) eqn:Hcr; [discriminate|].
@@ -626,4 +627,96 @@ Proof.
   - destruct (sys_close (o_ s)) as [[cr e0] o2].
     destruct (cr <? 0); discriminate.
   - discriminate.
+Qed.
+
+(* one operation *)
+Lemma sim_step fi sf si p d sf' :
+  R sf si -> step fi sf p = Some (None, d, sf') -> rderr (o_ sf') = false ->
+  exists si', step fi si p = Some (None, d, si') /\ R sf' si'.
+Proof.
+  intros HR H Hfin. destruct p as [b off data|b off n| | |]; simpl in *.
+  - destruct (write_file sf fi b off data) as [[] s1| |] eqn:E; try discriminate; inv H.
+    destruct (sim_write_file _ _ _ _ _ _ _ HR E Hfin) as (si' & E' & HR'). rewrite E'. eauto.
+  - destruct (read_file sf fi b off n) as [bs s1| |] eqn:E; try discriminate; inv H.
+    destruct (sim_read_file _ _ _ _ _ _ _ _ HR E Hfin) as (si' & E' & HR'). rewrite E'. eauto.
+  - destruct (flush_buffers sf fi false) as [[] s1| |] eqn:E; try discriminate; inv H.
+    destruct (sim_flush _ _ _ _ _ HR E Hfin) as (si' & E' & HR'). rewrite E'. eauto.
+  - destruct (fflush_file sf) as [[] s1| |] eqn:E; try discriminate; inv H.
+    destruct (sim_fsync _ _ _ HR E) as (si' & E' & HR'). rewrite E'. eauto.
+  - destruct (close_file sf fi) as [[] s1| |] eqn:E; try discriminate; inv H.
+    destruct (sim_close _ _ _ _ HR E Hfin) as (si' & E' & HR'). rewrite E'. eauto.
+Qed.
+
+(* C14_success_means_on_disk: a whole history.  If every operation including the close reported NO_ERROR on the
+   faulty OS, and no read() failed hard, then the fault-free OS runs the same history to the same statuses, the
+   same bytes read, and the SAME DISK. *)
+Theorem success_means_on_disk : forall fi ops sf si l sfe,
+  R sf si -> run fi sf ops = Some (l, sfe) -> all_ok l = true -> no_read_error l = true ->
+  exists li sie, run fi si ops = Some (li, sie) /\
+                 map fst li = map fst l /\ all_ok li = true /\
+                 disk (o_ sfe) = disk (o_ sie) /\ c_ sfe = c_ sie.
+Proof.
+  intros fi ops. induction ops as [|p rest IH]; intros sf si l sfe HR H Hok Hnr.
+  - simpl in *. inv H. exists [], si. destruct HR as (Hc & Hu & (Hd & _)). repeat split; auto.
+  - simpl in H. destruct (step fi sf p) as [[[e d] s1]|] eqn:Es; [|discriminate].
+    destruct (run fi s1 rest) as [[l1 s2]|] eqn:Er; [|discriminate]. inv H.
+    simpl in Hok, Hnr. apply andb_true_iff in Hok as [Hok1 Hok2]. apply andb_true_iff in Hnr as [Hnr1 Hnr2].
+    destruct e as [e|]; [discriminate|]. apply negb_true_iff in Hnr1.
+    destruct (sim_step _ _ _ _ _ _ HR Es Hnr1) as (si1 & Es' & HR1).
+    destruct (IH _ _ _ _ HR1 Er Hok2 Hnr2) as (li & sie & Er' & M & Ok' & D & C).
+    exists ((None, d, rderr (o_ si1)) :: li), sie. simpl. rewrite Es', Er'. repeat split; auto.
+    simpl. now rewrite M.
+Qed.
+
+Lemma R_init d rs : R (mk_state d rs) (mk_state d []).
+Proof. unfold R, Ro, mk_state; simpl. repeat split; reflexivity. Qed.
+
+
+(* ------------------------------------------------------------------ witnesses *)
+(* (1) the hypothesis "no read() failed hard" is necessary: ADFI_write_file treats a failed read of the block it
+   is about to modify like "block does not exist yet" (iret < 0 -> iret = 0, blank fill).  File [1;2;3;4];
+   write one byte 65 at block 0 offset 0; close.  System calls: lseek#0, read#1 <- EIO.  Every operation reports
+   NO_ERROR, yet byte 1 of the file is a blank instead of 2. *)
+Definition wit_ops1 : list op := [OWrite 0 0 [65]; OClose].
+Definition wit_rs1 : list resp := [Ok 4096; Err 5].
+Lemma read_error_swallowed :
+  exists l s li si,
+    run 0 (mk_state [1;2;3;4] wit_rs1) wit_ops1 = Some (l, s) /\ all_ok l = true /\ no_read_error l = false /\
+    run 0 (mk_state [1;2;3;4] []) wit_ops1 = Some (li, si) /\ all_ok li = true /\
+    firstn 4 (disk (o_ s)) = [65;32;32;32] /\ firstn 4 (disk (o_ si)) = [65;2;3;4].
+Proof.
+  destruct (run 0 (mk_state [1;2;3;4] wit_rs1) wit_ops1) as [[l s]|] eqn:E1; [|vm_compute in E1; discriminate].
+  destruct (run 0 (mk_state [1;2;3;4] []) wit_ops1) as [[li si]|] eqn:E2; [|vm_compute in E2; discriminate].
+  exists l, s, li, si. vm_compute in E1. vm_compute in E2. inversion E1; subst. inversion E2; subst.
+  vm_compute. repeat split; reflexivity.
+Qed.
+
+(* (2) the deferred block flush: flush_wr_block is cleared BEFORE the status of the write is known.  The error
+   is still returned by that very call (FWRITE_ERROR = 14); afterwards the buffered block is never written and
+   the close reports NO_ERROR -- "an error no later than the close" holds, "every later success means the data is
+   on disk" would not.  Calls: OWrite#1 = lseek0 read1; OWrite#2 (other block) = flush: lseek2 write3 <- ENOSPC. *)
+Definition wit_ops2 : list op := [OWrite 0 0 [1]; OWrite 1 0 [2]; OClose].
+Definition wit_rs2 : list resp := [Ok 4096; Ok 4096; Ok 4096; Err 28].
+Lemma deferred_flush_error_reported :
+  exists l s, run 0 (mk_state [] wit_rs2) wit_ops2 = Some (l, s) /\
+              map (fun x => fst (fst x)) l = [None; Some FWRITE_ERROR; None] /\ disk (o_ s) = [].
+Proof.
+  destruct (run 0 (mk_state [] wit_rs2) wit_ops2) as [[l s]|] eqn:E1; [|vm_compute in E1; discriminate].
+  exists l, s. vm_compute in E1. inversion E1; subst. vm_compute. repeat split; reflexivity.
+Qed.
+
+(* (3) why the theorem compares with the fault-free RUN and not with a plain byte store: without any fault the
+   block buffers are not coherent for every history of ADFI_write_file calls (a clean, still identified write
+   buffer is not invalidated by a large direct write that covers it).  buffer block 1; flush; large write
+   4000..4199 (covers block 1 offsets 0..103) with 7s; small write into block 1 -> the stale buffer is reused and
+   flushed at close: address 4096+50 holds a blank, not 7.  (C02's business; believed unreachable through the
+   public API because node data and node headers never share a block in that order.) *)
+Definition wit_ops3 : list op :=
+  [OWrite 1 0 [1]; OFlush; OWrite 0 4000 (repeat 7 200); OWrite 1 200 [9]; OClose].
+Lemma cache_hole_without_any_fault :
+  exists l s, run 0 (mk_state [] []) wit_ops3 = Some (l, s) /\ all_ok l = true /\
+              nth (4096 + 50) (disk (o_ s)) 0 = 32 /\ nth (4096 + 200) (disk (o_ s)) 0 = 9.
+Proof.
+  destruct (run 0 (mk_state [] []) wit_ops3) as [[l s]|] eqn:E1; [|vm_compute in E1; discriminate].
+  exists l, s. vm_compute in E1. inversion E1; subst. vm_compute. repeat split; reflexivity.
 Qed.
